@@ -156,6 +156,7 @@ fn main() {
     std::panic::set_hook(prev);
 
     let mut composition_mismatch: Option<String> = None;
+    let mut composition_glb_mismatch: Option<String> = None;
     let mut panicked = false;
     let mut errored: Option<String> = None;
     let mut code = String::new();
@@ -195,6 +196,19 @@ fn main() {
                                 (None, None) => true,
                                 _ => false,
                             };
+                            // the same question asked the way a consumer asks it: plain lookup_token (greatest lower bound), no exact-token filter
+                            let got_glb = c.lookup_token(t.get_dst_line(), t.get_dst_col());
+                            let same_glb = match (&want, &got_glb) {
+                                (Some(a), Some(b)) => a.get_src_line() == b.get_src_line() && a.get_src_col() == b.get_src_col() && a.get_source() == b.get_source() && a.get_name() == b.get_name(),
+                                (None, None) => true,
+                                (None, Some(b)) => !b.has_source(),
+                                _ => false,
+                            };
+                            if !same_glb && composition_glb_mismatch.is_none() {
+                                composition_glb_mismatch = Some(format!("generated {}:{} want {:?} got {:?}", t.get_dst_line(), t.get_dst_col(),
+                                    want.map(|a| (a.get_source().map(|x| x.to_string()), a.get_src_line(), a.get_src_col())),
+                                    got_glb.map(|a| (a.get_source().map(|x| x.to_string()), a.get_src_line(), a.get_src_col()))));
+                            }
                             if !same && composition_mismatch.is_none() {
                                 composition_mismatch = Some(format!("generated {}:{} want {:?} got {:?}", t.get_dst_line(), t.get_dst_col(),
                                     want.map(|a| (a.get_source().map(|x| x.to_string()), a.get_src_line(), a.get_src_col(), a.get_name().map(|x| x.to_string()))),
@@ -279,6 +293,10 @@ fn main() {
                 "composition_mismatch" => {
                     println!("--- composition: {:?}", composition_mismatch);
                     composition_mismatch.is_some() == v.as_bool().unwrap()
+                }
+                "composition_glb_mismatch" => {
+                    println!("--- composition (glb): {:?}", composition_glb_mismatch);
+                    composition_glb_mismatch.is_some() == v.as_bool().unwrap()
                 }
                 "trailer_count_ne" => content.matches("sourceMappingURL=").count() as i64 != v.as_i64().unwrap(),
                 "map_invalid" => (trailer_map(&content).is_none()) == v.as_bool().unwrap(),
